@@ -78,6 +78,11 @@ def document(openapi="3.0.3"):
         "Layout": {"type": "object", "required": ["a-dflt", "b-plain"], "properties": {
             "a-dflt": {"type": "string", "default": "x"}, "b-plain": {"type": "integer"},
             "c-opt-dflt": {"type": "integer", "default": 3}, "d-opt": {"type": "string", "format": "date"}}},
+        # class names that are suffixes of the class names they use (import filtering must not confuse them)
+        "Item": {"type": "object", "properties": {"order": {"$ref": "#/components/schemas/OrderItem"},
+                                                  "more": {"type": "array", "items": {"$ref": "#/components/schemas/OrderItem"}}}},
+        "OrderItem": {"type": "object", "required": ["n"], "properties": {"n": {"type": "integer"}}, "additionalProperties": False},
+        "Kind": {"type": "object", "properties": {"my-kind": {"type": "string", "enum": ["on", "off"]}}},     # inline enum KindMyKind
         "Two": {"type": "object", "required": ["first-p"], "properties": {
             "first-p": {"type": "string", "format": "date"}, "second_p": {"type": "string", "format": "date"},
             "third p": {"type": "integer", "default": 3}}},
@@ -102,7 +107,7 @@ def document(openapi="3.0.3"):
         for c in comps.values():
             _downgrade(c)
     doc = {"openapi": openapi, "info": {"title": "frag", "version": "1"}, "paths": {}, "components": {"schemas": comps}}
-    extra = ["Leaf", "Leaf2", "Composed", "TypedExtra", "ModelExtra", "NoExtra", "Two", "Layout", "UsesFormat"]
+    extra = ["Leaf", "Leaf2", "Composed", "TypedExtra", "ModelExtra", "NoExtra", "Two", "Layout", "UsesFormat", "Item", "Kind"]
     return doc, cases, extra
 
 
